@@ -241,6 +241,9 @@ class Interval:
                 return (self ** Interval.point(-other.start)).inverse()
         else:
             if eval_expr(self.start) > 0 or eval_expr(self.start) == 0 and self.left_open:
+                if eval_expr(self.start) < 1:
+                    # x ^ y decreases in y for x < 1: the endpoint formula below does not apply
+                    return Interval.open(expr.Const(0), expr.POS_INF)
                 if eval_expr(other.start) > 0:
                     r = eval_expr(self.end) ** eval_expr(other.end)
                     l = eval_expr(self.start) ** eval_expr(other.start)
